@@ -31,6 +31,9 @@ var extraRules = map[string]func(p *Program, c *Check){
 		sh := NewSharedInfo(p)
 		ruleOWN1(p, c, sh, funcs)
 		ruleOWN2(p, c, funcs)
+		// "no history": nothing reachable from a handler writes memory that outlives the request
+		ruleSHR1(p, c, sh, p.requestPath(true))
+		ruleSHR4(p, c)
 	},
 	"C01": func(p *Program, c *Check) { ruleOWN2(p, c, p.requestPath(false)) },
 	"C07": func(p *Program, c *Check) {
